@@ -42,6 +42,10 @@ def find_visitors(ctx, entry_name="fill_in_let", mod=MOD):
     return filler
 
 
+def names_in_expr(e):
+    return {n.id for n in ast.walk(e) if isinstance(n, ast.Name)}
+
+
 def return_kinds(ctx, fi):
     """Kinds a visit method may return: 'sexpr' (list/tuple display), 'ir' (IR object), 'other'."""
     T, ix = ctx.typer, ctx.ix
@@ -145,7 +149,7 @@ def run(ctx, rep):
         for cs in T.callsites(h):
             if cs.kind == "visit" and isinstance(cs.node, ast.Call) and cs.node.args:
                 ids, _ = fl.depends(cs.node.args[0])
-                if any(id(m) in ids and isinstance(m, ast.Attribute) and m.attr == "alias_from" for m in walk_no_nested(h.node)):
+                if any(id(m) in ids and isinstance(m, ast.Attribute) and m.attr == "alias_from" for m in walk_no_nested(h.node)) and fl.is_relevant(cs.node):
                     n = cfg.containing_stmt_node(cs.node, h.body)
                     if n is not None:
                         vnodes.append(n)
@@ -199,6 +203,22 @@ def run(ctx, rep):
                     get_idiom = True
         if get_idiom:
             rep.ok("C05.2", cons, "override.get(const.name, const.value)", f.loc())
+            continue
+        # the same idiom through a local name: v = override.get(name, value); return <v or something made of v>
+        via = None
+        for var, exprs in fl.defs.items():
+            for v in exprs:
+                if isinstance(v, ast.Call) and isinstance(v.func, ast.Attribute) and v.func.attr == "get" and len(v.args) == 2 and reads(v.func.value, over_attr) and reads(v.args[0], "name") and reads(v.args[1], "value"):
+                    via = var
+        if via is not None:
+            users = [r for r in rets if via in names_in_expr(r.value)]
+            if users and all(isinstance(r.value, ast.Name) and r.value.id == via for r in users):
+                rep.ok("C05.2", cons, "override.get(const.name, const.value) returned as is", f.loc())
+            elif users:
+                r = [r for r in users if not (isinstance(r.value, ast.Name) and r.value.id == via)][0]
+                rep.violation("C05.2", cons, f"the value taken from the override dictionary is transformed before it is substituted (`{ast.unparse(r.value)}`): the circuit is not evaluated with the constant bound to its overriding value (e.g. a float override of an int-declared constant is truncated)", f"{f.path}:{r.lineno}")
+            else:
+                rep.undecided("C05.2", cons, "override lookup result is not returned", f.loc())
             continue
         decl = [r for r in rets if reads(r.value, "value") and not reads(r.value, over_attr)]
         over = [r for r in rets if reads(r.value, over_attr)]
